@@ -132,22 +132,11 @@ func runRoundtrip(payload string) string {
 	u2, _ := z.Unmarshal()
 	fix := reflect.DeepEqual(lowerLabels(u), lowerLabels(u2))
 	eq := "skip"
-	if !strings.Contains(payload, "c=") && !hasFold(v) {
+	if !strings.Contains(payload, "c=") {
+		// a capacity is not carried by Unmarshal (skipped); case folding is an option, not a difference (repair F41)
 		eq = errTok(s.IsEqual(z))
 	}
 	return fmt.Sprintf("U%s{%s} M%s Z{%s} F%s Q%s", errTok(uerr), Describe(any(u)), errTok(merr), Describe(z), b01(fix), eq)
-}
-
-func hasFold(v V) bool {
-	if v.T == 'K' && v.Cfg.Opt&fFold != 0 {
-		return true
-	}
-	for _, x := range v.Xs {
-		if hasFold(x) {
-			return true
-		}
-	}
-	return false
 }
 
 // ---------------------------------------------------------------------------
